@@ -15,3 +15,6 @@ import Gaftools.Props.Reflect
 #print axioms Gaftools.Reflect.validRGFAB_sound
 #print axioms Gaftools.Reflect.validRGFAB_tagged
 #print axioms Gaftools.Reflect.validRGFAB_complete
+#print axioms Gaftools.Reflect.recValid_walk
+#print axioms Gaftools.Reflect.recValid_bare
+#print axioms Gaftools.Reflect.recValid_ivs
